@@ -534,6 +534,58 @@ class TreeGen:
         return ('GC', [self.any(depth - 1) for _ in range(n)])
 
 
+def gen_dimension_mix(rng):
+    """one tree whose parts disagree on dimensionality: per coordinate (NaN vs finite Z / M), per ring, per multi member, per collection member;
+    the part that carries the ordinate comes first or later (both orders), the others lack it (flags) or hold only NaN. X, Y and finite Z are
+    plain finite values so that the same tree is valid input for the GeoJSON writer."""
+    NANB = 0x7ff8000000000000
+    fin = lambda: bits_of(round(rng.uniform(-500, 500), rng.randint(0, 4)))
+
+    def part_dims(has):         # how a part without the ordinate is represented: no flag, or flag with NaN everywhere
+        return rng.choice(['noflag', 'allnan']) if not has else rng.choice(['all', 'all', 'some'])
+
+    def coords(n, zmode, mmode, closed=False):
+        cs = []
+        for i in range(n):
+            z = fin() if zmode == 'all' or (zmode == 'some' and rng.random() < 0.5) else NANB
+            m = fin() if mmode == 'all' or (mmode == 'some' and rng.random() < 0.5) else NANB
+            cs.append((fin(), fin(), z, m))
+        if zmode == 'some' and all(is_nan_bits(c[2]) for c in cs):
+            cs[-2 if closed else -1] = cs[-2 if closed else -1][:2] + (fin(), cs[-1][3])
+        if zmode == 'some' and rng.random() < 0.5:            # the first coordinate without the ordinate, a later one with it
+            cs[0] = cs[0][:2] + (NANB, cs[0][3])
+        if closed:
+            cs[-1] = cs[0]
+        return cs
+
+    def flags(zmode, mmode):
+        return (0 if zmode == 'noflag' else 1) + (0 if mmode == 'noflag' else 2)
+
+    use_m = rng.random() < 0.3          # GeoJSON ignores M; WKT carries it
+    n = rng.choice([2, 2, 3])
+    who = rng.randrange(n)              # which part carries Z
+    if rng.random() < 0.25:
+        who = -1 if rng.random() < 0.5 else None   # none / all
+    zs = [part_dims(who is None or i == who) for i in range(n)]
+    ms = [part_dims(use_m and rng.random() < 0.5) if use_m else 'noflag' for i in range(n)]
+    leaf = lambda k, i, cnt, closed=False: (k, flags(zs[i], ms[i]), coords(cnt, zs[i], ms[i], closed))
+    ring = lambda i: leaf('R', i, rng.choice([4, 5]), True)
+    line = lambda i: leaf('L', i, rng.choice([2, 3, 4]))
+    point = lambda i: leaf('P', i, 1)
+    kind = rng.choice(['PG', 'PG', 'MG', 'MG2', 'ML', 'MP', 'L', 'GC', 'GC2', 'CP', 'MC', 'MS'])
+    if kind == 'PG': return ('PG', [ring(i) for i in range(n)])
+    if kind == 'MG': return ('MG', [('PG', [ring(i)]) for i in range(n)])
+    if kind == 'MG2': return ('MG', [('PG', [ring(0)]), ('PG', [ring(i) for i in range(1, n)] if n > 1 else [ring(0)])][::rng.choice([1, -1])])
+    if kind == 'ML': return ('ML', [line(i) for i in range(n)])
+    if kind == 'MP': return ('MP', [point(i) for i in range(n)])
+    if kind == 'L': return leaf('L', 0, 4) if zs[0] != 'noflag' else ('L', 1, coords(4, 'some', 'noflag'))
+    if kind == 'GC': return ('GC', [rng.choice([point, line])(i) for i in range(n)])
+    if kind == 'GC2': return ('GC', [('PG', [ring(0)]), ('GC', [line(i) for i in range(1, n)]) if n > 1 else point(0)][::rng.choice([1, -1])])
+    if kind == 'CP': return ('CP', [('L', flags(zs[i], ms[i]), coords(5, zs[i], ms[i], True)) for i in range(n)])
+    if kind == 'MC': return ('MC', [line(i) for i in range(n)])
+    return ('MS', [('PG', [ring(i)]) for i in range(n)])
+
+
 # ---------------------------------------------------------------------------------------------- shrinking of trees
 def shrink_candidates(t):
     """smaller variants of a tree (one step)"""
@@ -725,6 +777,16 @@ def run(ctx):
         if js or rng.random() < 0.15:
             ind = rng.choice([-1, -1, 0, 2, 4])
             glines.append('J %d %s' % (ind, words)); gcases.append(('J', ind, t)); dist['json'] += 1
+    # dimensionality mixes: per coordinate / ring / member, carrier first or later, through every writer setting and GeoJSON
+    for i in range(70 if quick else 1200):
+        t = gen_dimension_mix(rng)
+        dist['dimension_mix'] = dist.get('dimension_mix', 0) + 1
+        words = ' '.join(tree_words(t))
+        for c in [(rng.choice([0, 1]), rng.choice(ALLP), rng.choice([3, 4]), 0), (1, rng.choice(ALLP), rng.choice([2, 3, 4]), rng.choice([0, 1]))]:
+            glines.append('G %d %d %d %d %s' % (c + (words,))); gcases.append(('G', c, t))
+            key = 'trim%d old3d%d dim%d' % (c[0], c[3], c[2]); dist['cfg'][key] = dist['cfg'].get(key, 0) + 1
+        ind = rng.choice([-1, -1, 2])
+        glines.append('J %d %s' % (ind, words)); gcases.append(('J', ind, t)); dist['json'] += 1
     for l in corpus:
         if l.startswith(('G ', 'J ')):
             w = l.split()
